@@ -125,15 +125,16 @@ def scenarios(tier, famname):
         sub_c = ["Nest", "Mix", "Mid", "MidB"] if quick else ["Cons", "Nest", "Mix", "Mid", "MidB"]
         pair_p = ["a", "c[0]", "c[1]", "d[1][0]", "m", "m.g"]
         pair_c = ["Reg", "Nest", "Mix", "RegO", "Slc", "Hold", "Mid", "MidB"]
+        pair3_c = ["Reg", "Nest", "Mix", "RegO", "Mid", "MidB"]
         nest_c = ["Reg", "Nest", "Mix", "Cons", "Hold", "Mid", "MidB"]
     elif famname == "PB":
         sub_p = ["c", "l[1]", "m", "m.g"]
         sub_c = ["PReg", "PMix", "PBMidB"] if quick else ["PReg", "PMix", "PNest", "PBMid", "PBMidB"]
-        pair_p, pair_c, nest_c = allp, allc, allc
+        pair_p, pair_c, nest_c, pair3_c = allp, allc, allc, allc
     else:
         sub_p = ["q", "qs[1]", "w", "w.foo"]
         sub_c = ["QNest", "QReg", "CLMid", "CLMidB"] if quick else ["QCnt", "QNest", "QReg", "CLMid", "CLMidB"]
-        pair_p, pair_c, nest_c = allp, allc, allc
+        pair_p, pair_c, nest_c, pair3_c = allp, allc, allc, allc
     nest_p = fam.hosts + fam.nested
     # replace_component on a hosting position after its nested position has changed (the API falls back
     # to the constructor arguments of the removed host) needs both calls at every step
@@ -147,7 +148,7 @@ def scenarios(tier, famname):
             dict(name="uniform-inits", inits=uni, positions=allp, palette=allc, kinds="both", maxlen=1),
             dict(name="uniform-len2", inits=uni, positions=pair_p, palette=pair_c, kinds="alt", maxlen=2),
             dict(name="all-len2", inits=base, positions=allp, palette=allc, kinds="both", maxlen=2),
-            dict(name="pairs-len3", inits=base, positions=pair_p, palette=pair_c, kinds="alt", maxlen=3),
+            dict(name="pairs-len3", inits=base, positions=pair_p, palette=pair3_c, kinds="alt", maxlen=3),
             dict(name="sub-len4", inits=base, positions=sub_p, palette=sub_c, kinds="alt", maxlen=4)]
 
 
